@@ -1,8 +1,8 @@
-"""F-W (C01, new): InteractiveContext.run()/run_until()/run_for() compute their number of iterations ONCE, from the
+"""F-AB (C01, new): InteractiveContext.run()/run_until()/run_for() compute their number of iterations ONCE, from the
 global step size at entry (ceil((end - time) / step_size)).  With per-simulant clocks the global step varies, so the
 "same" run takes a different number of steps than SimulationContext.run() (while time < stop: step()) - silently when
 the closing assertion `time - step_size < end <= time` happens to hold for the NEW step size, with an AssertionError
-otherwise.  Exit 1 if the defect is present.      usage: /venv/bin/python FW_demo.py"""
+otherwise.  Exit 1 if the defect is present.      usage: /venv/bin/python FAB_demo.py"""
 import sys; sys.path.insert(0, "/verif/harness")
 import boot
 import pandas as pd
